@@ -225,7 +225,7 @@ fn boxes(seed: u64, k: usize, square: bool) -> [f64; 4] {
 }
 
 fn enumerate(tier: Tier, seed: u64) -> Vec<Case> {
-    let reps = tier.n(2, 40);
+    let reps = tier.n(6, 40);
     let mut cases = Vec::new();
     for shape in ["rect", "circle", "ellipse", "line"] {
         let mut items: Vec<Item> = Vec::new();
